@@ -72,6 +72,11 @@ def build_one(exe, rng, idx):
                 attrs.append((1, rng.choice([b"other@realm", b"bob@example.org", b"", b"b", b"anonymous@some.where.example.org", b"x" * rng.choice([1, 9, 10, 60, 253])])))
             if rng.random() < 0.3:
                 attrs.append(R.rand_attr(rng))
+            if step % 4 == 0:
+                # another vendor's attribute that only LOOKS like Microsoft's when the first octet of the vendor id is not looked at
+                # (a vendor id is four octets): its sub-attributes 16/17 are nobody's keys and pass through as they are
+                v = bytes((7 * j + step) % 256 for j in range([18, 34, 5, 20][step // 4 % 4]))
+                attrs.append((26, bytes([1 + step % 255, 0, 1, 0x37]) + bytes([16 + step // 4 % 2, len(v) + 2]) + v))
             if rng.random() < 0.3:     # hidden attributes: the delivered ones must decrypt for THIS client (also when both hops share a secret)
                 sv_, fw_ = h.srv(ent[0]), ent[2]
                 salt = bytes([rng.randrange(256) | 0x80, rng.randrange(256)])
